@@ -60,7 +60,14 @@ pub fn check_keys(s: &dyn Subject, route: Route, keys: &[Vec<u8>]) -> Result<Opt
                 // a surviving byte only counts if it is live storage: flipping it changes the instance's behaviour.
                 // Dead storage (padding, the inactive arm of the autodetect union, stack residue copied along by a move)
                 // is not key material the instance holds.
-                let live: Vec<usize> = bad.iter().copied().filter(|&i| s.live_byte(&keys[ki], route, i).unwrap_or(true)).collect();
+                // A position is live if flipping it changes the behaviour of an instance built the same way from ANY key of
+                // the set (not only this one): CAST5 ignores masking[12..16] / rotate[12..16] under a key of at most 80
+                // bits, but the key schedule fills them and they are fields of the cipher, not residue (seed C16r4-1).
+                let live: Vec<usize> = bad
+                    .iter()
+                    .copied()
+                    .filter(|&i| s.live_byte(&keys[ki], route, i).unwrap_or(true) || keys.iter().enumerate().any(|(kj, k2)| kj != ki && s.live_byte(k2, route, i).unwrap_or(true)))
+                    .collect();
                 if !live.is_empty() {
                     return Err((
                         format!("all {ndep} key-dependent bytes of the {n}-byte instance read 0 after drop"),
